@@ -479,7 +479,7 @@ def cross_shard(results):
 
 def gen_cases(rec, rng, tier):
     yield {'part': 'battery'}
-    for _ in range(12 if tier == 'thorough' else 6):
+    for _ in range(40 if tier == 'thorough' else 6):
         yield {'part': 'random', 'rseed': rng.randrange(10 ** 9)}
 
 
